@@ -96,10 +96,7 @@ func genWeights(r *rand.Rand, n int) []uint32 {
 }
 
 func genVals(r *rand.Rand) []VW {
-	n := 1 + r.Intn(9)
-	if r.Intn(4) != 0 && n < 3 {
-		n = 3 + r.Intn(5)
-	}
+	n := []int{1, 2, 3, 3, 3, 3, 4, 4, 4, 4, 4, 5, 5, 5, 6, 6, 7, 7, 8, 9}[r.Intn(20)]
 	ws := genWeights(r, n)
 	perm := r.Perm(40)
 	var out []VW
@@ -136,6 +133,13 @@ func mutateVals(r *rand.Rand, v []VW) []VW {
 			}
 		}
 	}
+	var tot uint64
+	for _, x := range out {
+		tot += uint64(x.W)
+	}
+	if tot > 1<<31-1 || len(out) == 0 {
+		return append([]VW{}, v...)
+	}
 	return out
 }
 
@@ -160,10 +164,17 @@ func Gen(r *rand.Rand, o GenOpts) []string {
 	}
 	for k := 0; k < nseal; k++ {
 		blk := []int{1, 1, 2, 2, 3, 5}[r.Intn(6)]
+		if o.Mix == "C09" {
+			blk = []int{1, 1, 2, 3}[r.Intn(4)]
+		}
 		pv = mutateVals(r, pv)
 		policy = append(policy, SealRule{Epoch: epoch0 + uint32(k), Block: blk, Vals: pv})
 	}
 	ref := NewInst(cfg, epoch0, vals, policy)
+	forkRate := 4
+	if o.Mix == "C03" {
+		forkRate = 3
+	}
 
 	nEv := 20 + r.Intn(o.MaxEv-19)
 	var evs []*genEv
@@ -209,7 +220,7 @@ func Gen(r *rand.Rand, o GenOpts) []string {
 			}
 			es.side[id] = r.Intn(2)
 		}
-		es.pParent = 0.3 + 0.7*r.Float64()
+		es.pParent = 0.5 + 0.5*r.Float64()
 		return es
 	}
 	es := newEpochState()
@@ -255,7 +266,7 @@ func Gen(r *rand.Rand, o GenOpts) []string {
 		sp := -1
 		if own := es.own[cr]; len(own) > 0 {
 			sp = own[len(own)-1]
-			if es.cheater[cr] && r.Intn(4) == 0 {
+			if es.cheater[cr] && r.Intn(forkRate) == 0 {
 				// fork: an older own event, or none at all (second "first" event)
 				k := r.Intn(len(own) + 1)
 				if k == len(own) {
@@ -425,51 +436,24 @@ func Gen(r *rand.Rand, o GenOpts) []string {
 	}
 	// collision burst aimed at temporary-id reuse: build #c with parents S1, cheap builds up to
 	// #(256c - 1), then build #256c with the same epoch and lamport and a superset S2 of the parents.
-	burst := func(inj string) (pre [][]string, probe []string) {
+	burst := func(inj string, e *genEv) (pre [][]string, probe []string) {
 		c := builds + 1
-		if c > 3 || len(cur.ids) < 2 {
+		if c > 8 || e.def.Seq <= 1 || len(e.def.Parents) < 2 || e.def.Frame <= e.spf {
 			return nil, nil
 		}
-		// candidate: next event of a validator having a self-parent, S1 = {self-parent}, S2 = all heads
-		var cands []uint32
-		for _, v := range cur.ids {
-			if len(cur.own[v]) > 0 {
-				cands = append(cands, v)
-			}
-		}
-		if len(cands) < 2 {
-			return nil, nil
-		}
-		cr := cands[r.Intn(len(cands))]
-		sp := cur.own[cr][len(cur.own[cr])-1]
-		s1 := []int{sp}
-		s2 := []int{sp}
-		lam := evs[sp].def.Lamport
-		for _, v := range cur.ids {
-			if v == cr || len(cur.own[v]) == 0 {
-				continue
-			}
-			p := cur.own[v][len(cur.own[v])-1]
-			s2 = append(s2, p)
-			if len(s1) < 2 && r.Intn(2) == 0 {
-				s1 = append(s1, p)
-			}
-			if evs[p].def.Lamport > lam {
-				lam = evs[p].def.Lamport
-			}
-		}
+		// candidate = the event that is processed next: S1 = {self-parent}, S2 = its real parents
 		mk := func(kind string, ps []int) []string {
-			g := []string{kind, fmt.Sprint(cur.epoch), fmt.Sprint(cr), fmt.Sprint(evs[sp].def.Seq + 1), fmt.Sprint(lam + 1)}
+			g := []string{kind, fmt.Sprint(e.def.Epoch), fmt.Sprint(e.def.Creator), fmt.Sprint(e.def.Seq), fmt.Sprint(e.def.Lamport)}
 			for _, p := range ps {
 				g = append(g, fmt.Sprint(p))
 			}
 			return g
 		}
-		pre = append(pre, mk(inj, s1))
+		pre = append(pre, mk(inj, e.def.Parents[:1]))
 		for k := c + 1; k < 256*c; k++ {
 			pre = append(pre, cheap(inj))
 		}
-		return pre, mk("B", s2)
+		return pre, mk("B", e.def.Parents)
 	}
 	wrongFrame := func(e *genEv) (uint32, bool) {
 		F, spf := e.def.Frame, e.spf
@@ -498,9 +482,11 @@ func Gen(r *rand.Rand, o GenOpts) []string {
 	for si, it := range order {
 		if o.Mix == "C09" && si == firstSwitch && !altStarted {
 			altStarted = true
-			if firstSwitchReset != nil {
-				alt = append(alt, firstSwitchReset)
+			mark := firstSwitchReset
+			if mark == nil {
+				mark = it.reset
 			}
+			main = append(main, append([]string{"ALTFROM"}, mark[1:]...))
 		}
 		push := func(g []string) {
 			main = append(main, g)
@@ -563,8 +549,8 @@ func Gen(r *rand.Rand, o GenOpts) []string {
 					builds++
 				}
 			}
-			if !burstDone && len(cur.all) > 6 && r.Intn(12) == 0 {
-				if pre, probe := burst("b"); probe != nil {
+			if !burstDone && len(cur.all) > 3 && r.Intn(2) == 0 {
+				if pre, probe := burst("b", e); probe != nil {
 					main = append(main, pre...)
 					main = append(main, probe)
 					builds += len(pre) + 1
@@ -589,8 +575,8 @@ func Gen(r *rand.Rand, o GenOpts) []string {
 					builds++
 				}
 			}
-			if !burstDone && len(cur.all) > 6 && r.Intn(10) == 0 {
-				if pre, probe := burst("b"); probe != nil {
+			if !burstDone && len(cur.all) > 3 && r.Intn(2) == 0 {
+				if pre, probe := burst("b", e); probe != nil {
 					main = append(main, pre...)
 					pushBoth(probe)
 					builds += len(pre) + 1
@@ -635,12 +621,6 @@ func Gen(r *rand.Rand, o GenOpts) []string {
 	}
 	for _, g := range main {
 		add(g...)
-	}
-	if o.Mix == "C07" || o.Mix == "C08" || o.Mix == "C09" {
-		add("ALT")
-		for _, g := range alt {
-			add(g...)
-		}
 	}
 	return toks
 }
